@@ -375,11 +375,8 @@ impl<T: RealNumber> DecisionTreeRegressor<T> {
             );
         }
 
-        let parent_gain =
-            T::from(n).unwrap() * self.nodes[visitor.node].output * self.nodes[visitor.node].output;
-
         for variable in variables.iter().take(mtry) {
-            self.find_best_split(visitor, n, sum, parent_gain, *variable);
+            self.find_best_split(visitor, n, sum, *variable);
         }
 
         self.nodes[visitor.node].split_score != Option::None
@@ -390,7 +387,6 @@ impl<T: RealNumber> DecisionTreeRegressor<T> {
         visitor: &mut NodeVisitor<'_, T, M>,
         n: usize,
         sum: T,
-        parent_gain: T,
         j: usize,
     ) {
         let mut true_sum = T::zero();
@@ -420,9 +416,15 @@ impl<T: RealNumber> DecisionTreeRegressor<T> {
                 let true_mean = true_sum / T::from(true_count).unwrap();
                 let false_mean = (sum - true_sum) / T::from(false_count).unwrap();
 
-                let gain = (T::from(true_count).unwrap() * true_mean * true_mean
-                    + T::from(false_count).unwrap() * false_mean * false_mean)
-                    - parent_gain;
+                // reduction of the squared error by this cut. Algebraically equal to
+                // n_t * mean_t^2 + n_f * mean_f^2 - n * mean^2, but that form
+                // subtracts numbers of the size of sum(y^2) and loses the digits that separate two
+                // cuts when the targets share a large offset; the product form does not cancel.
+                let diff = true_mean - false_mean;
+                let gain = T::from(true_count).unwrap() * T::from(false_count).unwrap()
+                    / T::from(true_count + false_count).unwrap()
+                    * diff
+                    * diff;
 
                 if self.nodes[visitor.node].split_score == Option::None
                     || gain > self.nodes[visitor.node].split_score.unwrap()
